@@ -470,6 +470,18 @@ func (cr *checkResult) finish(levelNote string) int {
 	for k, v := range cr.extra {
 		cov[k] = v
 	}
+	if inst, ok := cr.extra["instances"].(map[string]any); ok && level == "proof" {
+		// instance-wise checks: each generated method is a program validated (by proof) against the
+		// contract instantiated from its source signature; bounded over interfaces by the corpus
+		level = "translation_validation"
+		cov["programs"] = len(cr.functions)
+		cov["disagreements_checked"] = cr.obligations
+		cov["bound"] = "interfaces: the corpus " + fmt.Sprint(inst["corpus"]) + " (a sample); values, histories, schedules: unbounded (proof per instance)"
+		if len(cr.samples) == 0 {
+			cr.samples = append(cr.samples, map[string]any{"note": "see per_obligation"})
+			cov["samples"] = cr.samples
+		}
+	}
 	ev := map[string]any{
 		"property_id": cr.prop,
 		"tier":        cr.tier,
